@@ -122,6 +122,31 @@ class Fixed:
         self.items = list(items)
 
 
+class RecMap:
+    """a map from node label to a small record {constant key: value hole}: `alts` are the records a label can have,
+    () meaning the label is not in the map; which record a label gets depends on which attributes that atom carries"""
+
+    def __init__(self, alts):
+        self.alts = []
+        for a in alts:
+            if a not in self.alts:
+                self.alts.append(a)
+
+
+class RecAlt:
+    """one record of a RecMap (any of the alternatives)"""
+
+    def __init__(self, alts):
+        self.alts = [a for a in alts if a != ()]
+
+
+class FixedAlt:
+    """a list whose exact content is one of several fixed lists"""
+
+    def __init__(self, lists):
+        self.lists = lists
+
+
 class Coll:
     """list / dict of strings filled by the code under analysis (immutable value: updates rebind the variable)"""
 
@@ -209,6 +234,22 @@ class ShapeInterp:
                 env = dict(env)
                 env[c.func.value.id] = Fixed(env[c.func.value.id].items + [self.tostr(self.ev(fi, c.args[0], env), fi, st)])
                 return [env]
+            if isinstance(c, ast.Call) and isinstance(c.func, ast.Attribute) and c.func.attr == "update" and isinstance(c.func.value, ast.Name) and len(c.args) == 1 \
+                    and (isinstance(env.get(c.func.value.id), RecMap) or (isinstance(env.get(c.func.value.id), Coll) and env[c.func.value.id].kind == "map" and not env[c.func.value.id].elems)):
+                new_ = self.ev(fi, c.args[0], env)
+                if isinstance(new_, RecMap):
+                    # dict.update: for a label present in the argument the whole record is replaced
+                    old_ = env[c.func.value.id]
+                    old_alts = old_.alts if isinstance(old_, RecMap) else [()]
+                    if () not in old_alts:
+                        old_alts = old_alts + [()]
+                    res_ = []
+                    for a_ in old_alts:
+                        for n_ in new_.alts + [()]:
+                            res_.append(n_ if n_ != () else a_)
+                    env = dict(env)
+                    env[c.func.value.id] = RecMap(res_)
+                    return [env]
             if isinstance(c, ast.Call) and isinstance(c.func, ast.Attribute) and c.func.attr in ("append", "add") and isinstance(c.func.value, ast.Name) \
                     and isinstance(env.get(c.func.value.id), Coll) and c.args:
                 env = dict(env)
@@ -216,6 +257,27 @@ class ShapeInterp:
                 return [env]
             self.ev(fi, st.value, env)
             return [env]
+        if isinstance(st, ast.Assign) and isinstance(st.targets[0], ast.Subscript) and isinstance(st.targets[0].value, ast.Call) \
+                and isinstance(st.targets[0].value.func, ast.Attribute) and st.targets[0].value.func.attr == "setdefault" and isinstance(st.targets[0].value.func.value, ast.Name) \
+                and len(st.targets[0].value.args) == 2 and isinstance(st.targets[0].value.args[1], ast.Dict) and not st.targets[0].value.args[1].keys:
+            nm = st.targets[0].value.func.value.id
+            cur = env.get(nm)
+            if isinstance(cur, RecMap) or (isinstance(cur, Coll) and cur.kind == "map" and not cur.elems):
+                lab = self.ev(fi, st.targets[0].value.args[0], env)
+                k = self.ev(fi, st.targets[0].slice, env)
+                v = self.ev(fi, st.value, env)
+                kk = k[1] if isinstance(k, tuple) and k[:1] == ("key",) else (k.p[0][1] if isinstance(k, Str) and len(k.p) == 1 and k.p[0][0] == "lit" else None)
+                if isinstance(lab, Int) and kk is not None and isinstance(v, Int):
+                    # the label's record gains (or re-sets) one key; other labels keep what they have
+                    alts = cur.alts if isinstance(cur, RecMap) else [()]
+                    if () not in alts:
+                        alts = alts + [()]
+                    res_ = list(alts)
+                    for a_ in alts:
+                        res_.append(tuple(x for x in a_ if x[0] != kk) + ((kk, v),) if any(x[0] == kk for x in a_) else a_ + ((kk, v),))
+                    env = dict(env)
+                    env[nm] = RecMap(res_)
+                    return [env]
         if isinstance(st, ast.Assign) and isinstance(st.targets[0], ast.Subscript) and isinstance(st.targets[0].value, ast.Name) \
                 and isinstance(env.get(st.targets[0].value.id), Coll):
             name = st.targets[0].value.id
@@ -292,7 +354,7 @@ class ShapeInterp:
     def accum_vars(body):
         out = {n.target.id for n in ast.walk(ast.Module(body, [])) if isinstance(n, ast.AugAssign) and isinstance(n.target, ast.Name)}
         for n in ast.walk(ast.Module(body, [])):
-            if isinstance(n, ast.Call) and isinstance(n.func, ast.Attribute) and n.func.attr in ("append", "add") and isinstance(n.func.value, ast.Name):
+            if isinstance(n, ast.Call) and isinstance(n.func, ast.Attribute) and n.func.attr in ("append", "add", "update", "setdefault") and isinstance(n.func.value, ast.Name):
                 out.add(n.func.value.id)
             if isinstance(n, ast.Assign) and isinstance(n.targets[0], ast.Subscript) and isinstance(n.targets[0].value, ast.Name):
                 out.add(n.targets[0].value.id)
@@ -302,6 +364,8 @@ class ShapeInterp:
         accs = {a for a in self.accum_vars(st.body) if a in env}
 
         def merge(cur, new):
+            if isinstance(new, RecMap):
+                return RecMap((cur.alts if isinstance(cur, RecMap) else [()]) + new.alts)
             if isinstance(cur, Coll) and isinstance(new, Coll):
                 return cur.union(new)
             return join_str(cur, new)
@@ -346,6 +410,9 @@ class ShapeInterp:
                 env = dict(env)
                 for a in accs:
                     cur = env[a]
+                    if len(res) == 1 and isinstance(res[0][a], RecMap):
+                        env[a] = res[0][a]            # one way through the body: what it leaves is the new value
+                        continue
                     for r in res:
                         cur = merge(cur, r[a])
                     env[a] = cur
@@ -359,6 +426,9 @@ class ShapeInterp:
             for el in elems:
                 e_in = self.bind(st.target, el, env)
                 for a in accs:
+                    if isinstance(env[a], RecMap) or (isinstance(env[a], Coll) and env[a].kind == "map" and not env[a].elems and self._fills_recmap(st, a)):
+                        e_in[a] = env[a]
+                        continue
                     e_in[a] = Coll(env[a].kind) if isinstance(env[a], Coll) else Str()
                 lp = {"cont": []}
                 res = self.block(fi, st.body, [e_in], outs, lp) + lp["cont"]
@@ -367,6 +437,13 @@ class ShapeInterp:
                         deltas[a].append(r[a])
             env = dict(env)
             for a in accs:
+                if any(isinstance(d, RecMap) for d in deltas[a]):
+                    alts = list(env[a].alts) if isinstance(env[a], RecMap) else [()]
+                    for d in deltas[a]:
+                        if isinstance(d, RecMap):
+                            alts += d.alts
+                    env[a] = RecMap(alts)
+                    continue
                 if isinstance(env[a], Coll):
                     c = env[a]
                     for d in deltas[a]:
@@ -383,6 +460,13 @@ class ShapeInterp:
                 env[a] = env[a] + Str([("star", Str([("alt", uniq)]) if len(uniq) != 1 else uniq[0])])
             return [env]
         raise AnalysisError(f"shape interpreter: loop over {type(it).__name__} at {fi.loc(st)}")
+
+    @staticmethod
+    def _fills_recmap(loop, name) -> bool:
+        for n in ast.walk(loop):
+            if isinstance(n, ast.Call) and isinstance(n.func, ast.Attribute) and n.func.attr == "setdefault" and isinstance(n.func.value, ast.Name) and n.func.value.id == name:
+                return True
+        return False
 
     def refine(self, fi, test, env):
         """(truth, env') for the feasible branches"""
@@ -478,6 +562,19 @@ class ShapeInterp:
                 return Pair(*vals)
         if isinstance(e, ast.Dict) and not e.keys:
             return Coll("map")
+        if isinstance(e, ast.Dict) and e.keys and all(k is not None for k in e.keys):
+            ks = [self.ev(fi, k, env) for k in e.keys]
+            vs = [self.ev(fi, v, env) for v in e.values]
+            if all((isinstance(k, tuple) and k[:1] == ("key",)) or (isinstance(k, Str) and len(k.p) == 1 and k.p[0][0] == "lit") for k in ks) and all(isinstance(v, Int) for v in vs):
+                return ("rec", tuple((k[1] if isinstance(k, tuple) else k.p[0][1], v) for k, v in zip(ks, vs)))
+        if isinstance(e, ast.DictComp) and len(e.generators) == 1 and not e.generators[0].ifs:
+            g = e.generators[0]
+            it = self.ev(fi, g.iter, env)
+            if isinstance(it, SymSeq) and it.what == "nodes" and isinstance(it.elem, Pair):
+                e2 = self.bind(g.target, it.elem, env)
+                k, v = self.ev(fi, e.key, e2), self.ev(fi, e.value, e2)
+                if isinstance(k, Int) and isinstance(v, tuple) and v[:1] == ("rec",):
+                    return RecMap([v[1]])
         if isinstance(e, ast.BinOp) and isinstance(e.op, ast.BitAnd):
             a, b = self.ev(fi, e.left, env), self.ev(fi, e.right, env)
             ks = [x for x in (a, b) if isinstance(x, KeySet)]
@@ -535,6 +632,14 @@ class ShapeInterp:
                 for k in it.d:
                     items.append(self.tostr(self.ev(fi, e.elt, self.bind(g.target, ("key", k), env)), fi, e))
                 return SubSeq(items) if g.ifs else SubSeq(items, True)
+            if isinstance(it, tuple) and it and it[0] == "recitems":
+                lists = []
+                for rec in it[1]:
+                    items = []
+                    for k_, v_ in rec:
+                        items.append(self.tostr(self.ev(fi, e.elt, self.bind(g.target, Pair(lit(k_), v_), env)), fi, e))
+                    lists.append(items)
+                return FixedAlt(lists)
             if isinstance(it, ConstItems):       # (filtered) iteration over the (key, value) pairs of a constant map
                 items = []
                 for k, v in it.d.items():
@@ -678,6 +783,12 @@ class ShapeInterp:
             if isinstance(recv, Coll) and recv.kind == "map" and attr in ("items", "values"):
                 el = Pair(Int(0), recv.elem()) if attr == "items" and recv.bylabel else (Pair(Opaque("key"), recv.elem()) if attr == "items" else recv.elem())
                 return SymSeq(el, asc=False, what=recv.what or "nodes")
+            if isinstance(recv, RecMap) and attr == "items":
+                return SymSeq(Pair(Int(0), RecAlt(recv.alts)), asc=False, what="nodes")
+            if isinstance(recv, RecMap) and attr == "values":
+                return SymSeq(RecAlt(recv.alts), asc=False, what="nodes")
+            if isinstance(recv, RecAlt) and attr == "items":
+                return ("recitems", recv.alts)
             if isinstance(recv, ConstMap) and attr == "items":
                 return ConstItems(recv.d)
             if isinstance(recv, ConstMap) and attr == "keys":
@@ -737,6 +848,15 @@ class ShapeInterp:
                     for i_, it_ in enumerate(a.items):
                         out_ = out_ + (recv if i_ else Str()) + it_
                     return out_
+                if isinstance(a, FixedAlt):
+                    alts_ = []
+                    for items_ in a.lists:
+                        out_ = Str()
+                        for i_, it_ in enumerate(items_):
+                            out_ = out_ + (recv if i_ else Str()) + it_
+                        if out_ not in alts_:
+                            alts_.append(out_)
+                    return alts_[0] if len(alts_) == 1 else Str([("alt", alts_)])
                 if isinstance(a, Coll):
                     self.emissions.append({"fi": fi, "node": e, "what": a.what, "asc": a.asc, "pair_asc": None})
                     el = a.elem()
